@@ -189,13 +189,8 @@ def static_tables(ctx, rng, tmp, read_elast_data):
         ks = [keys21[int(i)] for i in rng.permutation(21)[:int(rng.integers(1, 22))]]
         lat = bool(rng.random() < 0.5)
         vref, mass = float(rng.uniform(100, 900)), float(rng.uniform(10, 500))
-        def name(k):
-            style = int(rng.integers(0, 5))
-            if style == 3:
-                st = c_(*k).standard
-                return "c%d%d%d%d" % st
-            return ["c%d%d", "C%d%d", "c_%d%d", None, "S%d%d"][style] % k if style != 3 else None
-        names = [name(k) for k in ks]
+        from cv.synth import spell
+        names = [spell(rng, k) for k in ks]
         vols = numpy.sort(rng.uniform(100, 900, nv))[::-1]
         vals = rng.uniform(-500, 500, (nv, len(ks)))
         latv = rng.uniform(0.5, 5, (nv, 3))
